@@ -164,7 +164,7 @@ pub fn run_one_path(rtm: &mut Option<Rt>, f: fn() -> rt::R, p: Pending) -> (Outc
 }
 
 fn is_harness_file(file: &str) -> bool {
-    file.contains("/verif/") || file.starts_with("symord/") || file.contains("symord/src/") || (file.starts_with("src/") && !std::path::Path::new("/repo").join(file).exists())
+    file.contains("hsrc/")
 }
 
 pub fn explore(sc: &Scenario, cfg: &Config) -> Report {
@@ -287,7 +287,7 @@ pub fn explore(sc: &Scenario, cfg: &Config) -> Report {
         smt += "(assert (not "; smt += &fml; smt += "))\n(check-sat)\n";
         rep.cert_bytes = smt.len();
         if leaves != rep.paths { rt::inconclusive(&format!("tree has {} leaves but {} paths were run", leaves, rep.paths)); }
-        let dir = std::env::var("SYMORD_TMP").unwrap_or_else(|_| "/verif/symord/target/tmp".to_string());
+        let dir = std::env::var("SYMORD_TMP").unwrap_or_else(|_| format!("{}/symord/target/tmp", root()));
         let _ = std::fs::create_dir_all(&dir);
         let path = format!("{}/cert-{}-{}.smt2", dir, sc.name, std::process::id());
         std::fs::File::create(&path).unwrap().write_all(smt.as_bytes()).unwrap();
@@ -321,3 +321,6 @@ pub fn run_concrete(f: fn() -> rt::R, choices: Vec<u32>, nonce: u64) -> Outcome 
     if let Some((loc, msg)) = hp { rt::inconclusive(&format!("harness panicked at {}: {}", loc, msg)); }
     o
 }
+
+/// directory of the framework (the check script exports it; a background snapshot run has its own)
+pub fn root() -> String { std::env::var("SYMORD_ROOT").unwrap_or_else(|_| "/verif".to_string()) }
